@@ -20,6 +20,19 @@ fn ser<T: CanonicalSerialize>(x: &T, c: Compress) -> Vec<u8> {
     x.serialize_with_mode(&mut o, c).expect("serialize");
     o
 }
+/// everything observable about a decoded affine point, as bytes comparable across the two engines: the canonical
+/// serialisation, the stored coordinates and infinity flag themselves, and the identity predicates (equality with
+/// identity(), is_zero(), hash equal to the hash of identity())
+fn obs<C: ark_ec::short_weierstrass::SWCurveConfig>(p: &ark_ec::short_weierstrass::Affine<C>) -> Vec<u8> {
+    use std::hash::{Hash, Hasher};
+    let mut o = ser(p, Compress::No);
+    o.extend(ser(&p.x, Compress::No));
+    o.extend(ser(&p.y, Compress::No));
+    let id = ark_ec::short_weierstrass::Affine::<C>::identity();
+    let h = |q: &ark_ec::short_weierstrass::Affine<C>| { let mut h = std::collections::hash_map::DefaultHasher::new(); q.hash(&mut h); h.finish() };
+    o.extend([p.infinity as u8, (*p == id) as u8, p.is_zero() as u8, (h(p) == h(&id)) as u8, (p.into_group() == id.into_group()) as u8, p.xy().is_some() as u8]);
+    o
+}
 fn de<T: CanonicalDeserialize>(bts: &[u8], c: Compress) -> Result<T, String> {
     T::deserialize_with_mode(bts, c, Validate::Yes).map_err(|e| format!("{e:?}"))
 }
@@ -452,7 +465,7 @@ pub fn run(ctx: &Ctx, rec: &mut Rec) {
             }
             // unvalidated modes: bytes of honest points and of (coordinate + p) variants through
             // Validate::No must still get the same verdict / value from both engines
-            let unchecked_cases: Vec<(bool, Compress, Vec<u8>)> = cases.iter().filter(|c| c.0 == "coordinate + p" || c.0 == "bit flip" || c.0 == "zero-component point" || c.0 == "on curve outside subgroup" || c.0 == "subgroup point + small-order point").map(|c| (c.1, c.2, c.3.clone())).collect();
+            let unchecked_cases: Vec<(bool, Compress, Vec<u8>)> = cases.iter().filter(|c| c.0 == "coordinate + p" || c.0 == "bit flip" || c.0 == "flag bits" || c.0 == "zero-component point" || c.0 == "on curve outside subgroup" || c.0 == "subgroup point + small-order point").map(|c| (c.1, c.2, c.3.clone())).collect();
             for (is_g2, c, bytes) in unchecked_cases {
                 rec.form("hostile encodings");
                 rec.class("enc:unvalidated mode");
@@ -460,12 +473,12 @@ pub fn run(ctx: &Ctx, rec: &mut Rec) {
                 let b2 = bytes.clone();
                 let res = guarded(|| {
                     if is_g2 {
-                        let o = <<Ours as Pairing>::G2Affine as CanonicalDeserialize>::deserialize_with_mode(&b2[..], c, Validate::No).map(|p| ser(&p, Compress::No)).ok();
-                        let r = <<Refe as Pairing>::G2Affine as CanonicalDeserialize>::deserialize_with_mode(&b2[..], c, Validate::No).map(|p| ser(&p, Compress::No)).ok();
+                        let o = <<Ours as Pairing>::G2Affine as CanonicalDeserialize>::deserialize_with_mode(&b2[..], c, Validate::No).map(|p| obs(&p)).ok();
+                        let r = <<Refe as Pairing>::G2Affine as CanonicalDeserialize>::deserialize_with_mode(&b2[..], c, Validate::No).map(|p| obs(&p)).ok();
                         (o, r)
                     } else {
-                        let o = <<Ours as Pairing>::G1Affine as CanonicalDeserialize>::deserialize_with_mode(&b2[..], c, Validate::No).map(|p| ser(&p, Compress::No)).ok();
-                        let r = <<Refe as Pairing>::G1Affine as CanonicalDeserialize>::deserialize_with_mode(&b2[..], c, Validate::No).map(|p| ser(&p, Compress::No)).ok();
+                        let o = <<Ours as Pairing>::G1Affine as CanonicalDeserialize>::deserialize_with_mode(&b2[..], c, Validate::No).map(|p| obs(&p)).ok();
+                        let r = <<Refe as Pairing>::G1Affine as CanonicalDeserialize>::deserialize_with_mode(&b2[..], c, Validate::No).map(|p| obs(&p)).ok();
                         (o, r)
                     }
                 });
@@ -487,11 +500,11 @@ pub fn run(ctx: &Ctx, rec: &mut Rec) {
                     if is_g2 {
                         let o: Result<<Ours as Pairing>::G2Affine, _> = de(&b2, c);
                         let r: Result<<Refe as Pairing>::G2Affine, _> = de(&b2, c);
-                        (o.map(|p| ser(&p, Compress::No)).ok(), r.map(|p| ser(&p, Compress::No)).ok())
+                        (o.map(|p| obs(&p)).ok(), r.map(|p| obs(&p)).ok())
                     } else {
                         let o: Result<<Ours as Pairing>::G1Affine, _> = de(&b2, c);
                         let r: Result<<Refe as Pairing>::G1Affine, _> = de(&b2, c);
-                        (o.map(|p| ser(&p, Compress::No)).ok(), r.map(|p| ser(&p, Compress::No)).ok())
+                        (o.map(|p| obs(&p)).ok(), r.map(|p| obs(&p)).ok())
                     }
                 });
                 match res {
